@@ -43,6 +43,24 @@ fn main() {
         }
         return;
     }
+    if args[0] == "dump-family" {
+        let want = args[1].clone();
+        let code = pool::on_fresh_thread(1, move || {
+            for (f, p) in stmtfam::all_programs(false) {
+                if f == want {
+                    let t = ast::print_program(&p).text;
+                    println!("{}", t);
+                    println!("=> {}", harness::compile_src(&t).short());
+                    if let harness::Outcome::Err { errs, .. } = harness::compile_src(&t) {
+                        for e in errs { println!("{}", e.dbg); }
+                    }
+                    break;
+                }
+            }
+            0
+        });
+        std::process::exit(code);
+    }
     if args[0] == "corpus" {
         std::process::exit(pool::on_fresh_thread(1, || selftest::corpus()));
     }
